@@ -450,28 +450,34 @@ structure Config where
   /-- `--input-eval`: value bound to `inputParam` after executing the input module (`none`: not bound → `KeyError`) -/
   evalValue : Option (List Const) := none
 
+/-- `--input-eval`: `AnnAssign(target=Name(search[-1]), annotation=it2literal(local[input_param]), value=None)` -/
+def evalNode (cfg : Config) (search : Loc) : Except Err Node :=
+  if cfg.inputParam.toList.contains '.' then .error .notImplemented
+  else match cfg.evalValue with
+    | none => .error .keyError
+    | some vs => (it2literal vs).map fun lit => Node.stmt (.ann (search.getLast?.getD "") lit none)
+
+/-- `find_in_ast(strip_split(input_param), input_ast)`, then `assert replacement_node is not None` -/
+def foundNode (cfg : Config) (input : Module) : Except Err Node :=
+  match findInAst (stripSplit cfg.inputParam) input with
+  | .error e => .error e
+  | .ok none => .error .assertion
+  | .ok (some n) => .ok n
+
 /-- the replacement node: evaluated `Literal[…]` under `--input-eval`, else `find_in_ast`; then the wrap template -/
-def replacementNode (cfg : Config) (search : Loc) (input : Module) : Except Err Node := do
-  let node ←
-    if cfg.inputEval then
-      if cfg.inputParam.toList.contains '.' then .error .notImplemented
-      else match cfg.evalValue with
-        | none => .error .keyError
-        | some vs => (it2literal vs).map fun lit => Node.stmt (.ann (search.getLast?.getD "") lit none)
-    else
-      match findInAst (stripSplit cfg.inputParam) input with
-      | .error e => .error e
-      | .ok none => .error .assertion
-      | .ok (some n) => .ok n
-  match cfg.wrap with
-  | none => pure node
-  | some t => wrapNode t node
+def replacementNode (cfg : Config) (search : Loc) (input : Module) : Except Err Node :=
+  match (if cfg.inputEval then evalNode cfg search else foundNode cfg input) with
+  | .error e => .error e
+  | .ok node =>
+    match cfg.wrap with
+    | none => .ok node
+    | some t => wrapNode t node
 
 /-- `sync_property` + emit, on already parsed modules -/
-def syncProperty (cfg : Config) (input output : Module) : Except Err Module := do
-  let search := stripSplit cfg.outputParam
-  let repl ← replacementNode cfg search input
-  rewriteChecked search repl output
+def syncProperty (cfg : Config) (input output : Module) : Except Err Module :=
+  match replacementNode cfg (stripSplit cfg.outputParam) input with
+  | .error e => .error e
+  | .ok repl => rewriteChecked (stripSplit cfg.outputParam) repl output
 
 structure Files where
   input : Module
